@@ -516,6 +516,13 @@ func execCase(ops []string) (out []string) {
 					ms, err := r.un.Barrier(src, b)
 					return r.unionOut(ms, err)
 				})
+			case "del": // u del <src> <id>: a DeleteGroupMessage (forwarded at once, never buffered)
+				guard(line, func() string {
+					d := edge.NewDeleteGroupMessage(edge.GroupInfo{})
+					r.ids[d] = t[3]
+					ms, err := r.un.Delete(int(atoi(t[2])), d)
+					return r.unionOut(ms, err)
+				})
 			case "fin":
 				guard(line, func() string { ms, err := r.un.Finish(); return r.unionOut(ms, err) })
 			}
@@ -562,6 +569,14 @@ func execCase(ops []string) (out []string) {
 				line = stripKey(line, "grp") + " grp=" + kit.Esc(string(gi.ID))
 				guard(line, func() string {
 					ms, err := r.jn.Barrier(int(atoi(t[2])), edge.NewBarrierMessage(gi, tm(atoi(t[3]))))
+					return r.joinOut(ms, err, false)
+				})
+			case "del": // j del <src> name= byname= dims= tags= [grp=]: DeleteGroupMessage of that group
+				m := kv(t[3:])
+				gi := mkPoint(m, 0).GroupInfo()
+				line = stripKey(line, "grp") + " grp=" + kit.Esc(string(gi.ID))
+				guard(line, func() string {
+					ms, err := r.jn.Delete(int(atoi(t[2])), edge.NewDeleteGroupMessage(gi))
 					return r.joinOut(ms, err, false)
 				})
 			case "fin":
